@@ -18,3 +18,38 @@ PROPS["C07"] = {
     "sampled_only_scope": "that the Rust functions compute what the model computes (differential run)",
     "assumptions": ["the register HashMap always holds the 16 GPRs and RIP (true after Axecutor::new/empty)"],
 }
+
+PROPS["C08"] = {
+    "lean_modules": ["AxVerif.Props.C08"],
+    "gen": "C08",
+    "spec_determined": True,   # byte-map refinement: every read result / write outcome is fixed by the spec
+    "exhaustive": {"quick": [], "thorough": []},
+    "proved_scope": "mem_read_bytes, mem_write_bytes, typed accessors 1/2/4/8/16 bytes over all layouts satisfying WF/NoOverlap "
+                    "(invariants of every operation, C10), all addresses and lengths incl. >= 2^64-1, all write histories",
+    "sampled_only_scope": "that memory.rs computes what the model computes; guest loads/stores reach these primitives (instruction layer)",
+    "assumptions": ["lengths of generated areas are small (the allocator is not modelled)"],
+}
+
+PROPS["C09"] = {
+    "lean_modules": ["AxVerif.Props.C09"],
+    "gen": "C09",
+    "spec_determined": True,
+    "exhaustive": {"quick": ["8 masks x 3 neighbour masks x {read bytes, typed read, fetch, write bytes, typed write} on both areas"],
+                   "thorough": ["8 masks x 3 neighbour masks x {read bytes, typed read, fetch, write bytes, typed write} on both areas"]},
+    "proved_scope": "read_needs_R, write_needs_W, fetch_needs_X, denied accesses are error values, permissions survive writes, "
+                    "code_immutable over all write histories, constructor maps code R+X, data areas are not executable",
+    "sampled_only_scope": "instruction-level paths (PUSH/CALL stores, read-modify-write) are covered by the instruction correspondence",
+    "assumptions": [],
+}
+
+PROPS["C10"] = {
+    "lean_modules": ["AxVerif.Props.C10"],
+    "gen": "C10",
+    "spec_determined": True,
+    "exhaustive": {"quick": [], "thorough": []},
+    "proved_scope": "NoOverlap and WF are invariants of mem_init_area*/mem_init_zero*/mem_prot/mem_resize_section/"
+                    "mem_init_*anywhere/init_stack area search/mem_write_bytes and of every history; overlap_rejected; "
+                    "anywhere_fresh; resize_iff; resize_prefix_zero; termination of the searches (Lean termination checker)",
+    "sampled_only_scope": "ELF load and brk go through the same operations (C13, C15)",
+    "assumptions": ["allocation of the requested length succeeds (huge lengths are not generated: the allocator aborts the process)"],
+}
